@@ -1,6 +1,6 @@
 """Per-property orchestration and verdict (DESIGN.md 3.3)."""
 import os, json, time, re, glob
-from props import PROPS, TRUSTED_BASE
+from props import PROPS, TRUSTED_BASE, REFLECT_CLASS
 
 def load_sidecar(d, name):
     try:
@@ -60,7 +60,7 @@ def run_property(C, pid, tier, seed, replay):
                     if isinstance(m, dict):
                         if m.get("nontrivial", True):
                             nontrivial += 1
-                        v = (m.get("violates") or {}).get(pid)
+                        v = (m.get("violates") or {}).get(pid) if "step_violations" not in m else None
                         cls = m.get("class") or []
                         if v:
                             hit = [c for c in cls if c in known_classes]
@@ -68,12 +68,44 @@ def run_property(C, pid, tier, seed, replay):
                                 known_hits.setdefault(hit[0], []).append((name, i, v))
                             else:
                                 violations.append({"stream": stream, "file": name, "index": i, "what": v, "case": m, "model_case": case_text(d, name, i)})
+                # reflections evaluated by the model on the real observations (stf stream): (loc, property, detail)
+                for loc, prop, detail in fr.get("reflect", []):
+                    if "C%02d" % prop != pid:
+                        continue
+                    sci, step = loc // 1000, loc % 1000
+                    m = side[sci] if sci < len(side) and isinstance(side[sci], dict) else {}
+                    cls = [c for st_, c in m.get("step_classes", []) if st_ == step]
+                    cls += REFLECT_CLASS.get((pid, detail), [])
+                    hit = [c for c in cls if c in known_classes]
+                    ops = m.get("ops", [])
+                    what = f"reflection {pid} clause {detail} fails on the implementation's own observation: scenario {m.get('scenario')} step {step} ({ops[step] if step < len(ops) else '?'})"
+                    if hit:
+                        known_hits.setdefault(hit[0], []).append((name, loc, what))
+                    else:
+                        violations.append({"stream": stream, "file": name, "scenario": m.get("scenario"), "step": step, "what": what,
+                                           "ops_so_far": ops[:step + 1], "coq_case_file": os.path.join(d, name + ".v")})
+                # property checks made by the harness on the implementation alone (per step)
+                for m in side:
+                    if not isinstance(m, dict):
+                        continue
+                    for step, prop, what in m.get("step_violations", []):
+                        if prop != pid:
+                            continue
+                        cls = [c for st_, c in m.get("step_classes", []) if st_ == step]
+                        hit = [c for c in cls if c in known_classes]
+                        if hit:
+                            known_hits.setdefault(hit[0], []).append((name, step, what))
+                        else:
+                            ops = m.get("ops", [])
+                            violations.append({"stream": stream, "file": name, "scenario": m.get("scenario"), "step": step, "what": what,
+                                               "ops_so_far": ops[:step + 1], "coq_case_file": os.path.join(d, name + ".v")})
                 if "error" in fr:
                     broken.append({"kind": "model-eval", "what": f"{stream}/{name}: {fr['error'][-600:]}"})
                     continue
                 for idx, code in fr["failing"]:
                     if code & mask:
-                        m = side[idx] if idx < len(side) else {}
+                        sidx = idx // 1000 if stream == "stf" else idx
+                        m = side[sidx] if sidx < len(side) else {}
                         cls = (m.get("class") or []) if isinstance(m, dict) else []
                         hit = [c for c in cls if c in known_classes]
                         ent = {"stream": stream, "profile": profile, "file": name, "index": idx, "code": code & mask, "case": m, "model_case": case_text(d, name, idx)}
